@@ -6,8 +6,11 @@ namespace MV.Facts
 variables of the packages this property's code lives in, the functions (other than `init`) that
 assign to them or call methods on them, and the fields of the property's struct types. The model is
 a pure function of the arguments and of these fields; a new variable, writer or field is state the
-model does not know of. -/
-def stateC19 : List (String × String) := [("globals:graph", ""), ("globals:graphalg", ""), ("globalwrites:graph", ""), ("globalwrites:graphalg", ""), ("fields:graphalg.DomTree", "idom:[]int children:[][]int"), ("funcs:graph", "n=13 fnv64a=91fcf3f7fdaf1da6"), ("funcs:graphalg", "n=27 fnv64a=e894f2184af9a92e")]
+model does not know of. The digest-valued entries cover, per package: every declared function and
+method with its receiver kind (`funcs:`), every function-reads-package-variable pair (`reads:`) and
+every write through a parameter or receiver, including in-place `sort.*`/`copy` (`pwrites:`); the
+lists behind the digests are in `funcs_expected.txt` and in comments of the generated file. -/
+def stateC19 : List (String × String) := [("globals:graph", ""), ("globals:graphalg", ""), ("globalwrites:graph", ""), ("globalwrites:graphalg", ""), ("fields:graphalg.DomTree", "idom:[]int children:[][]int"), ("funcs:graph", "n=13 fnv64a=6d127aa916cf372a"), ("reads:graph", "n=0 fnv64a=cbf29ce484222325"), ("pwrites:graph", "n=0 fnv64a=cbf29ce484222325"), ("funcs:graphalg", "n=27 fnv64a=7bc26b7e444e3bd8"), ("reads:graphalg", "n=0 fnv64a=cbf29ce484222325"), ("pwrites:graphalg", "n=4 fnv64a=63704012c05b15a7")]
 
 /-- the source has exactly the package-level variables, writers and struct fields the model accounts for -/
 theorem state_C19 : holdsAll stateC19 = true := by decide +kernel
